@@ -401,7 +401,7 @@ impl<'a> Rewriter<'a> {
             let ntext = norm_ws(&self.src.text[ss..se]);
             for k in 0..self.spec.before_stmt.len() {
                 let (ref pre, ord, ref txt) = self.spec.before_stmt[k];
-                if ntext.starts_with(pre.as_str()) {
+                if anchor_matches(&ntext, pre) {
                     if self.before_counts[k] == ord {
                         let t = self.expand(txt);
                         self.edits.push(Edit { start: ss, end: ss, text: format!("{}\n", t), prio: -5 });
@@ -412,7 +412,7 @@ impl<'a> Rewriter<'a> {
             }
             for k in 0..self.spec.after_stmt.len() {
                 let (ref pre, ord, ref txt) = self.spec.after_stmt[k];
-                if ntext.starts_with(pre.as_str()) {
+                if anchor_matches(&ntext, pre) {
                     if self.after_counts[k] == ord {
                         let t = self.expand(txt);
                         self.edits.push(Edit { start: se, end: se, text: format!("\n{}", t), prio: 5 });
@@ -446,6 +446,16 @@ impl<'a> Rewriter<'a> {
                 }
             }
         }
+    }
+}
+
+/// statement anchors: `prefix text` (statement starts with it) or `~text` (statement contains it, and is not a block/loop/if that merely encloses it)
+fn anchor_matches(stmt: &str, pat: &str) -> bool {
+    if let Some(sub) = pat.strip_prefix('~') {
+        let sub = sub.trim();
+        stmt.contains(sub) && !stmt.starts_with("if ") && !stmt.starts_with("while ") && !stmt.starts_with("loop") && !stmt.starts_with("match ") && !stmt.starts_with("for ") && !stmt.starts_with('{') && !stmt.starts_with("let ")
+    } else {
+        stmt.starts_with(pat)
     }
 }
 
@@ -1249,7 +1259,10 @@ fn main() {
             let edits = rw.edits.clone();
             notes.extend(rw.notes.iter().cloned());
             let indent = &line[..line.len() - t.len()];
-            out.push(&format!("{}{{", indent), &format!("tmpl:{}", spec.tmpl_line));
+            if std::env::var("VEXTRACT_STUB").map(|v| v.split(';').any(|f| f == spec.func)).unwrap_or(false) {
+                die(&format!("{} does not compile in the verifier's dialect on this tree (see the first run)", spec.func));
+            }
+            out.push(&format!("{}{{ // BODY-OF {}", indent, spec.func), &format!("tmpl:{}", spec.tmpl_line));
             if std::env::var("VEXTRACT_TWIN").is_ok() {
                 out.push(&format!("\n        assert(false); // TWIN {}", spec.func), &format!("tmpl:{}", spec.tmpl_line));
             }
